@@ -1057,8 +1057,9 @@ def is_blob_record(record):
 
 def copyTransactionsFromTo(source, destination):
     for trans in source.iterator():
-        destination.tpc_begin(trans, trans.tid, trans.status)
         try:
+            # (tpc_begin can fail with the commit lock already taken)
+            destination.tpc_begin(trans, trans.tid, trans.status)
             for record in trans:
                 blobfilename = None
                 if is_blob_record(record.data):
